@@ -8,6 +8,7 @@ import (
 	"fmt"
 	"math/big"
 	"reflect"
+	"strings"
 	"unsafe"
 
 	"filippo.io/edwards25519"
@@ -62,33 +63,43 @@ var layoutOK bool
 // succeed) before any other function of this package is used.
 func Guard() error {
 	et := reflect.TypeOf(field.Element{})
-	if et.Kind() != reflect.Struct || et.NumField() != 5 || et.Size() != ElemSize {
-		return fmt.Errorf("field.Element is not five 8-byte fields (size %d, fields %d)", et.Size(), et.NumField())
-	}
-	for i := 0; i < 5; i++ {
-		f := et.Field(i)
-		if f.Type.Kind() != reflect.Uint64 || f.Offset != uintptr(8*i) || f.Name != fmt.Sprintf("l%d", i) {
-			return fmt.Errorf("field.Element field %d is %s %s at %d", i, f.Name, f.Type, f.Offset)
+	// five uint64 limbs at offsets 0, 8, ..., 32: a struct of five fields (whatever
+	// they are called) or an array; that they are radix-2^51 limbs is established
+	// by crossCheck below
+	switch {
+	case et.Size() != ElemSize:
+		return fmt.Errorf("field.Element has size %d, expected %d", et.Size(), ElemSize)
+	case et.Kind() == reflect.Array && et.Len() == 5 && et.Elem().Kind() == reflect.Uint64:
+	case et.Kind() == reflect.Struct && et.NumField() == 5:
+		for i := 0; i < 5; i++ {
+			f := et.Field(i)
+			if f.Type.Kind() != reflect.Uint64 || f.Offset != uintptr(8*i) {
+				return fmt.Errorf("field.Element field %d is %s %s at %d", i, f.Name, f.Type, f.Offset)
+			}
 		}
+	default:
+		return fmt.Errorf("field.Element (%s) is neither five uint64 fields nor [5]uint64", et)
 	}
 	pt := reflect.TypeOf(edwards25519.Point{})
 	if pt.Kind() != reflect.Struct || pt.Size() != PointSize {
 		return fmt.Errorf("Point has size %d, expected %d", pt.Size(), PointSize)
 	}
-	want := []string{"x", "y", "z", "t"}
-	k := 0
+	// the four coordinates are found by name, in whatever order they are declared
+	found := 0
 	for i := 0; i < pt.NumField(); i++ {
 		f := pt.Field(i)
 		if f.Type.Size() == 0 {
 			continue
 		}
-		if k >= 4 || f.Name != want[k] || f.Type != et || f.Offset != uintptr(ElemSize*k) {
+		k := strings.Index("xyzt", f.Name)
+		if len(f.Name) != 1 || k < 0 || f.Type != et || f.Offset%8 != 0 {
 			return fmt.Errorf("Point field %s %s at %d does not match the assumed layout", f.Name, f.Type, f.Offset)
 		}
-		k++
+		pointOff[k] = f.Offset
+		found |= 1 << k
 	}
-	if k != 4 {
-		return fmt.Errorf("Point has %d coordinate fields", k)
+	if found != 15 {
+		return fmt.Errorf("Point does not have the four coordinate fields x, y, z, t")
 	}
 	st := reflect.TypeOf(edwards25519.Scalar{})
 	if st.Kind() != reflect.Struct || st.NumField() != 1 || st.Size() != ScalarSize {
@@ -202,9 +213,25 @@ func ElemLimbs(e *field.Element) Limbs {
 	return *(*Limbs)(unsafe.Pointer(e))
 }
 
+// pointOff holds the offsets of the fields x, y, z, t of Point (set by Guard).
+var pointOff = [4]uintptr{0, ElemSize, 2 * ElemSize, 3 * ElemSize}
+
 func PointLimbs(p *edwards25519.Point) PointRaw {
 	mustOK()
-	return *(*PointRaw)(unsafe.Pointer(p))
+	b := unsafe.Pointer(p)
+	return PointRaw{
+		X: *(*Limbs)(unsafe.Add(b, pointOff[0])), Y: *(*Limbs)(unsafe.Add(b, pointOff[1])),
+		Z: *(*Limbs)(unsafe.Add(b, pointOff[2])), T: *(*Limbs)(unsafe.Add(b, pointOff[3])),
+	}
+}
+
+// SetPointLimbs overwrites the coordinates of p in memory.
+func SetPointLimbs(p *edwards25519.Point, r PointRaw) {
+	b := unsafe.Pointer(p)
+	*(*Limbs)(unsafe.Add(b, pointOff[0])) = r.X
+	*(*Limbs)(unsafe.Add(b, pointOff[1])) = r.Y
+	*(*Limbs)(unsafe.Add(b, pointOff[2])) = r.Z
+	*(*Limbs)(unsafe.Add(b, pointOff[3])) = r.T
 }
 
 func ScalarLimbs(s *edwards25519.Scalar) ScalarRaw {
